@@ -3,7 +3,8 @@ import ast
 
 from ..core import AnalysisError, dotted, call_name, src, walk_local, const_value
 from ..flow import edge_facts, linear, Lin, leaves
-from ..rules import flow_of, calls_in, bind_args, canon, facts_at, cmp_norm, alts_deep, specialise, path_feasible
+from ..rules import flow_of, calls_in, bind_args, canon, facts_at, cmp_norm, alts_deep, specialise, path_feasible, gexpand
+from ..flow import edge_facts
 from ..nullflow import Spec, analyse, _use_kind
 from ..shapes import Shapes
 from .c04 import densified_in_station_order
@@ -243,11 +244,27 @@ def rule_row_acceptance(ck, rid="C06.R5"):
         ck.error(rid, "infrastructure_constraints_feasible: no accepting path through the per-constraint loop found (idiom not recognised)")
         return
 
-    def kind(atom):
-        """'phasor' / 'linear' / 'other' for an all(<x> <= <bound>) atom"""
-        if not (isinstance(atom, ast.Call) and call_name(atom) == "all" and atom.args):
+    def holds_everywhere(atom, truth):
+        """the elementwise comparison known to hold for every period when `atom` has truth value `truth`: all(X) true; any(not X) false"""
+        if not (isinstance(atom, ast.Call) and atom.args):
             return None
-        c = cmp_norm(atom.args[0])
+        nm = call_name(atom)
+        x = atom.args[0]
+        if nm == "all" and truth:
+            return x
+        if nm == "any" and not truth:
+            if isinstance(x, ast.Call) and call_name(x) == "logical_not" and x.args:
+                return x.args[0]
+            if isinstance(x, ast.UnaryOp) and isinstance(x.op, (ast.Invert, ast.Not)):
+                return x.operand
+            c0 = cmp_norm(x, False)
+            if c0 and c0[1] in ("<", "<="):
+                return ast.Compare(left=c0[0], ops=[{"<": ast.Lt(), "<=": ast.LtE()}[c0[1]]], comparators=[c0[2]])
+        return None
+
+    def kind(cmp_):
+        """'phasor' / 'linear' / 'other' for a comparison <x> <= <bound>"""
+        c = cmp_norm(cmp_)
         if not c or c[1] not in ("<=", "<"):
             return "other"
         x = c[0]
@@ -255,24 +272,43 @@ def rule_row_acceptance(ck, rid="C06.R5"):
         if {"cos", "sin"} <= names and ("norm" in names or "hypot" in names or "sqrt" in names):
             return "phasor"
         if "abs" in names and not ({"cos", "sin", "exp"} & names):
-            inner_abs = any(isinstance(q, ast.Call) and call_name(q) == "abs" and q.args and any(isinstance(z, (ast.Name, ast.Call)) and
-                            canon(z) in (f"__elem__({f.params[1]}.constraint_matrix)", f"__item__(__elem__(enumerate({f.params[1]}.constraint_matrix)), 1)")
+            row = (f"__elem__({f.params[1]}.constraint_matrix)", f"__item__(__elem__(enumerate({f.params[1]}.constraint_matrix)), 1)")
+            inner_abs = any(isinstance(q, ast.Call) and call_name(q) == "abs" and q.args and any(isinstance(z, (ast.Name, ast.Call)) and canon(z) in row
                             for z in ast.walk(q.args[0])) and not any(isinstance(z, ast.BinOp) and isinstance(z.op, ast.MatMult) for z in ast.walk(q.args[0]))
                             for q in ast.walk(x))
             return "linear" if inner_abs else "other"
         return "other"
+
+    def passed_on(r, mode):
+        """kinds of the comparisons known to hold on this path, each test re-expanded with gated phis and folded under the path's mode"""
+        out = []
+        for tn, lab in r.tests:
+            ge = specialise(gexpand(fl, tn.expr, tn), {lin_p: mode})
+            for a, t in edge_facts(ge, lab):
+                cmp_ = holds_everywhere(a, t)
+                if cmp_ is not None:
+                    out.append(kind(cmp_))
+        return out
+    def feasible_under(r, mode):
+        for tn, lab in r.tests:
+            ge = specialise(gexpand(fl, tn.expr, tn), {lin_p: mode})
+            if isinstance(ge, ast.Constant) and isinstance(ge.value, bool) and ge.value != bool(lab):
+                return False
+        return True
     n_checked = 0
+    seen_bad = set()
     for r in rows:
-        mode = r.fact(lambda k, a: k == lin_p)
-        if mode is None:
-            continue
-        want = "linear" if mode else "phasor"
-        passed = [kind(a) for k, t, a, n in r.facts if t and kind(a) is not None]
-        n_checked += 1
-        if want not in passed:
-            ck.violation(rid, f, r.describe(220), f"in {'linear' if mode else 'phase-aware'} mode a constraint row is accepted on this path without passing the "
-                         f"{want} comparison (comparisons passed: {passed or 'none'}): the algorithm-side check can accept what the network-side check rejects",
-                         sink=f"utils:row-accepted-without-{want}")
+        for mode in (True, False):
+            if not feasible_under(r, mode):
+                continue
+            want = "linear" if mode else "phasor"
+            passed = passed_on(r, mode)
+            n_checked += 1
+            if want not in passed and (mode, tuple(passed)) not in seen_bad:
+                seen_bad.add((mode, tuple(passed)))
+                ck.violation(rid, f, r.describe(220), f"in {'linear' if mode else 'phase-aware'} mode a constraint row is accepted on this path without passing the "
+                             f"{want} comparison (comparisons passed: {passed or 'none'}): the algorithm-side check can accept what the network-side check rejects",
+                             sink=f"utils:row-accepted-without-{want}")
     if n_checked == 0:
         ck.error(rid, "infrastructure_constraints_feasible: the accepting paths do not branch on the `linear` flag (mode idiom not recognised)")
     elif not any(o["rule"] == rid and o["verdict"] == "violation" and "row-accepted" in o.get("key", "") for o in ck.obligations):
